@@ -1,6 +1,7 @@
 package main
 
 // One blank import per engine package; each registers its checks in init().
+// (./check links only the owning engine per check; this binary links all.)
 import (
 	_ "verif/harness/codeclab"
 	_ "verif/harness/englab"
@@ -13,4 +14,5 @@ import (
 	_ "verif/harness/raftsim"
 	_ "verif/harness/smlab"
 	_ "verif/harness/synclab"
+	_ "verif/harness/walcrash"
 )
